@@ -2,26 +2,32 @@
 
 Decided:
   R49.1 (taint over mitmproxy/addons/dumper.py)  base sinks: every operand of ``print(...)`` and of ``<out>.write(...)`` (out =
-        ``self.outfp`` / ``sys.stdout`` / ``sys.stderr``); a function whose parameter reaches a base sink is a derived sink
-        (``Dumper.echo``: text, ident and the style keywords), transitively.  Sources: every parameter of an *entry* (a hook
-        method, or a method never called from inside the module) and everything derived from it - attribute chains,
-        elements, ``str()``, formatting, same-module helpers, self attributes.  A source reaching a sink must have passed a
-        sanitiser of the table below (each with its reason) or be non-string by "name typing" (every declaration of that
-        attribute name in mitmproxy/** is int/float/bool/None/Enum/Literal/ClassVar[str] literal).
-  R49.2 ``strutils.escape_control_characters`` is interpreted from its AST (pyint; module-level translation tables folded from the module's
-        statements and bound as globals, ``re`` trusted) on representatives of every combination of character classes - each Cc code point
-        alone and embedded in clean text, every non-empty combination of {C0, TAB/LF/CR, DEL, C1} - with keep_spacing on and off: no
-        output may contain a Cc character other than TAB / LF / CR.  Fast paths, regex pre-checks, helpers or loops around
-        ``str.translate`` are therefore analysed, not refused.  In addition, when the function is still a plain
-        ``return text.translate(<table>)``: the translation tables behind ``strutils.escape_control_characters`` (folded from the module's AST: dict
-        comprehension over range(), item assignments, ``copy``, the ``del`` loop, ``str.maketrans``) map every code point of
-        Unicode category Cc (U+0000-001F, U+007F, U+0080-009F) - except TAB / LF / CR when ``keep_spacing`` - to a
-        non-control character, and the function returns ``text.translate(<one of the two tables>)``.
-  R49.3 ``contentviews.prettify_message`` (a sanitiser of R49.1 for ``.text``): every ``return`` is either a
-        ``ContentviewResult(text=<constant>)`` or ``ret`` right after ``ret.text = escape_control_characters(ret.text)``.
+        ``self.outfp`` / ``sys.stdout`` / ``sys.stderr`` or a local alias of one); a function whose parameter reaches a base sink is a
+        derived sink (today ``Dumper.echo``: text, ident and the style keywords), transitively - found by role, not by name.  Sources:
+        every parameter of an *entry* (a hook method, or a method never called from inside the module) and everything derived from it -
+        attribute chains, elements, ``str()``, formatting, same-module helpers, nested functions (closures are analysed inline), self
+        attributes.  A source reaching a sink must have passed a sanitiser of the table below (each with its reason) or be non-string by
+        "name typing" (every declaration of that attribute name among the classes reachable from the hook argument types is
+        int/float/bool/None/Enum/Literal/ClassVar[str] literal), or be a socket-level ``peername`` / ``sockname`` (declared only in
+        mitmproxy/connection.py as ``Address``), or a ``metadata`` entry (through any alias of the dict) that is only ever written with
+        non-string values.  Non-vacuity is by role: every hook that prints reaches a checked sink site through the module's call graph
+        and both escaping sanitisers discharge hook-derived data (no count of call sites: that changes with every extracted helper).
+  R49.2 ``strutils.escape_control_characters`` is interpreted from its AST (pyint; the module state it reads is built by interpreting the
+        backward slice of the module's own top-level statements in order - displays, comprehensions, item assignment / deletion, loops, helper
+        calls, ``str.maketrans``, ``dict.fromkeys``, ``re.compile`` ... whatever builds it; ``re`` / ``unicodedata`` / ``string`` / ``functools``
+        / ``itertools`` / ``operator`` trusted, ``logging`` a no-op) on representatives of every combination of character classes - each Cc
+        code point alone and embedded in clean text, every non-empty combination of {C0, TAB/LF/CR, DEL, C1} - with keep_spacing on and off:
+        no output may contain a Cc character other than TAB / LF / CR.  Tables, fast paths, regex substitution, helpers or loops are
+        therefore analysed as what they compute, never matched by shape.
+  R49.3 ``contentviews.prettify_message`` (a sanitiser of R49.1 for ``.text``), by dataflow with one level of field sensitivity: on every
+        path the ``text`` of the returned result object is a constant or passed ``escape_control_characters`` after its last write
+        (``r.text = ...`` is a strong update, ``dataclasses.replace(r, text=...)``, constructor keyword or position, same-module helpers that
+        return or sanitise a result in place are followed; asserts, logging and writes to other fields are transparent).
 NOT decided: what ``mitmproxy_rs.syntax_highlight.highlight`` does with a clean text (assumed: re-chunks it); the styling
 sequences of ``miniclick.style`` (added by mitmdump itself); ``repr()``-escaping inside ``bytes_to_escaped_str`` (trusted:
 CPython repr of bytes escapes every non-printable-ASCII byte); terminals' interpretation of non-Cc characters.
+Whole-package questions (hook classes, users of Dumper, metadata writers, the class closure of the hook argument types) parse only the
+modules whose source text can contribute (quick tier); the thorough tier recomputes each over every module and requires agreement.
 """
 
 from __future__ import annotations
@@ -42,8 +48,12 @@ from ._helpers_G import class_closure
 from ._helpers_G import control_character_domain
 from ._helpers_G import interpret_sanitiser
 from ._helpers_G import expected_markers
-from ._helpers_G import fold_tables
+from ._helpers_G import Frame
 from ._helpers_G import load_positive
+from ._helpers_G import Origin
+from ._helpers_G import Summary
+from ._helpers_G import class_closure_lazy
+from ._helpers_G import modules_where
 from ._helpers_G import Program
 from ._helpers_G import SnippetModel
 from ._helpers_G import TaintSpec
@@ -51,14 +61,16 @@ from ._helpers_G import TaintSpec
 PROP = "C49"
 REG = {
     "strength": "strong",
-    "technique": "taint (flow-sensitive def-use, same-module summaries, derived sinks, name typing) over the Dumper addon + constant "
-    "folding of the sanitiser's translation table",
+    "technique": "taint (flow-sensitive def-use, same-module summaries, closures inline, derived sinks, name typing) over the Dumper addon + "
+    "interpretation of the sanitiser (module state built by interpreting the module's own statements) + field-sensitive dataflow over prettify_message",
     "claim": "every string derived from a hook argument of Dumper that reaches print()/outfp.write() (directly or through echo and other "
     "helpers) passed escape_control_characters / bytes_to_escaped_str / prettify_message(.text) / a numeric formatter, or is non-string by "
-    "declaration; escape_control_characters (interpreted from its AST on every Cc code point and every combination of character classes, and "
-    "its tables folded) maps every Cc code point except TAB/LF/CR; prettify_message escapes its text on every path.",
+    "declaration; escape_control_characters (interpreted from its AST on every Cc code point and every combination of character classes, with "
+    "keep_spacing on and off) lets no Cc code point except TAB/LF/CR through; the text of prettify_message's result is constant or escaped "
+    "after its last write on every path.",
     "note": "External callees are assumed to return data derived from their operands only. flow.metadata values are trusted iff every "
-    "writer in mitmproxy/** stores an int under that key. Positive example file mitmlint/positive/R49_1.py keeps R49.1 non-vacuous.",
+    "writer in mitmproxy/** stores an int under that key; Connection.peername/sockname are trusted as numeric socket addresses. Positive "
+    "example file mitmlint/positive/R49_1.py keeps R49.1 non-vacuous.",
 }
 
 F = "mitmproxy/addons/dumper.py"
@@ -74,10 +86,14 @@ RESULT_CLEAN_FIELDS = {
 OUT_CHAINS = ("self.outfp", "sys.stdout", "sys.stderr", "sys.__stdout__", "sys.__stderr__")
 
 
-def hook_names(model) -> dict:
-    """name -> (Module, ClassDef) of every Hook subclass, named by the rule of hooks.Hook.__init_subclass__."""
+_HOOK_HEADER = re.compile(r"^[ \t]*class[ \t]+\w*Hook[ \t]*\(", re.M)
+
+
+def hook_names(model, full=False) -> dict:
+    """name -> (Module, ClassDef) of every Hook subclass, named by the rule of hooks.Hook.__init_subclass__.  Only modules with a
+    ``class ...Hook(`` statement are parsed; full=True parses the whole package (thorough tier: both must agree)."""
     out = {}
-    for mod in model.all_modules():
+    for mod in model.all_modules() if full else modules_where(model, lambda src: bool(_HOOK_HEADER.search(src))):
         if "Hook" not in mod.source:
             continue
         for q, d in mod.defs().items():
@@ -92,6 +108,134 @@ def hook_names(model) -> dict:
                 if name:
                     out[name] = (mod, d)
     return out
+
+
+class NestFrame(Frame):
+    """Frame that also models nested function definitions (closures) instead of refusing them: a call of a nested function is analysed inline
+    - body executed on a copy of the enclosing environment at the call, parameters bound to the argument taints, sinks inside it reported,
+    containers of the enclosing scope it mutates updated weakly; a nested function used as a *value* (callback) is analysed with every
+    parameter bound to everything the enclosing function holds."""
+
+    MAX_NEST = 6
+
+    def __init__(self, prog, mod, fn, env=None):
+        super().__init__(prog, mod, fn, env)
+        self.nested: dict = {}
+        self.nest_depth = 0
+
+    def run(self):
+        fn, s = self.fn, self.sum
+        a = fn.args
+        allp = a.posonlyargs + a.args + a.kwonlyargs
+        s.params = [x.arg for x in allp]
+        s.vararg = a.vararg.arg if a.vararg else None
+        s.kwarg = a.kwarg.arg if a.kwarg else None
+        for x in allp + ([a.vararg] if a.vararg else []) + ([a.kwarg] if a.kwarg else []):
+            k = self.spec.param_kind(fn, x, self)
+            self.locals.add(x.arg)
+            self.env[x.arg] = frozenset([Origin(k, x.arg, x.arg, self.qual, ())]) if k else frozenset()
+        self.collect_locals(fn)
+        for d in a.defaults + [d for d in a.kw_defaults if d is not None]:
+            self.expr(d)
+        self.block(fn.body)
+        return s
+
+    def collect_locals(self, fn):
+        for n in ast.walk(fn):
+            if isinstance(n, ast.Name) and isinstance(n.ctx, (ast.Store, ast.Del)):
+                self.locals.add(n.id)
+            elif isinstance(n, (ast.FunctionDef, ast.AsyncFunctionDef)) and n is not fn:
+                self.locals.add(n.name)
+                if any(isinstance(x, ast.Nonlocal) for x in ast.walk(n)):
+                    raise AnalysisError(f"{self.mod.rel}::{self.qual}: nested function {n.name!r} rebinds enclosing variables (nonlocal): not modelled")
+
+    def stmt(self, st) -> bool:
+        if isinstance(st, (ast.FunctionDef, ast.AsyncFunctionDef)):
+            for d in st.decorator_list:
+                self.expr(d)
+            self.nested[st.name] = st
+            self.env[st.name] = frozenset()
+            return True
+        return super().stmt(st)
+
+    def bind(self, target, v, value_node):
+        if isinstance(target, ast.Name):
+            self.nested.pop(target.id, None)  # the name is rebound to something else
+        super().bind(target, v, value_node)
+
+    def run_nested(self, node, call, args, kws, probe, everything=None):
+        if self.nest_depth >= self.MAX_NEST:
+            raise AnalysisError(f"{self.mod.rel}::{self.qual}: nested function {node.name!r} recurses (not modelled)")
+        child = type(self)(self.prog, self.mod, node, env=dict(self.env))
+        child.cls, child.qual, child.nested, child.nest_depth = self.cls, self.qual, dict(self.nested), self.nest_depth + 1
+        child.locals |= self.locals
+        a = node.args
+        allp = [x.arg for x in a.posonlyargs + a.args + a.kwonlyargs]
+        own = set(allp) | {x.arg for x in (a.vararg, a.kwarg) if x}
+        s = Summary()
+        s.params, s.vararg, s.kwarg = allp, a.vararg.arg if a.vararg else None, a.kwarg.arg if a.kwarg else None
+        if everything is None:
+            bound = self.bind_args(s, node, call, args, kws, is_method=False)
+        else:
+            bound = {p: everything for p in own}
+        for d in a.defaults + [d for d in a.kw_defaults if d is not None]:
+            self.expr(d, probe)
+        for p in own:
+            child.env[p] = bound.get(p, frozenset())
+            child.locals.add(p)
+        for n in ast.walk(node):
+            if isinstance(n, ast.Name) and isinstance(n.ctx, (ast.Store, ast.Del)):
+                own.add(n.id)
+        child.collect_locals(node)
+        child.block(node.body)
+        if not probe:
+            for k, h in child.sum.hits.items():
+                if k in self.sum.hits:
+                    self.sum.hits[k].origins = self.sum.hits[k].origins | h.origins
+                else:
+                    self.sum.hits[k] = h
+            for d in child.sum.discharged:
+                if d not in self.sum.discharged:
+                    self.sum.discharged.append(d)
+        for k, v in child.env.items():  # containers of the enclosing scope the closure mutated
+            if k not in own and k in self.env and not v <= self.env[k]:
+                self.env[k] = self.env[k] | v
+        self.body_taint = self.body_taint | child.body_taint
+        return child.sum.ret
+
+    def call(self, c, probe):
+        if isinstance(c.func, ast.Name) and c.func.id in self.nested:
+            args = [self.expr(x, probe) for x in c.args]
+            kws = {(k.arg or "**"): self.expr(k.value, probe) for k in c.keywords}
+            if not probe:
+                self.spec.on_call(c, "?local", self)
+            return self.run_nested(self.nested[c.func.id], c, args, kws, probe)
+        return super().call(c, probe)
+
+    def _expr(self, e, probe):
+        if isinstance(e, ast.Name) and isinstance(e.ctx, ast.Load) and e.id in self.nested:
+            everything = frozenset().union(*self.env.values()) if self.env else frozenset()
+            return self.run_nested(self.nested[e.id], None, [], {}, probe, everything=everything)
+        return super()._expr(e, probe)
+
+
+class NestProgram(Program):
+    """Program whose frames are ``frame_cls`` (default NestFrame)."""
+
+    frame_cls = NestFrame
+
+    def summary(self, mod, fn):
+        k = id(fn)
+        if k in self.summaries or k in self.in_progress:
+            return super().summary(mod, fn)
+        self.in_progress.add(k)
+        try:
+            s = self.frame_cls(self, mod, fn).run()
+        finally:
+            self.in_progress.discard(k)
+        self.summaries[k] = s
+        self.analysed.append((mod.rel, qual_of(fn)))
+        return s
 
 
 class DumperSpec(TaintSpec):
@@ -111,23 +255,36 @@ class DumperSpec(TaintSpec):
         self.entries = entries
         self.metadata_ok = metadata_ok  # key -> reason | None
         self.sites: dict[int, tuple] = {}  # id(call) -> (rel, qual, call, what) for every base sink visited
+        self._out_chains: dict = {}
 
     def is_entry(self, fn, an) -> bool:
         return qual_of(fn) in self.entries
 
-    def sanitiser(self, call, dotted, frame):
-        why = self.sanitisers.get(dotted)
-        if why:
-            return why
-        if dotted == "mitmproxy.utils.human.format_address" and len(call.args) == 1 and not call.keywords:
-            if attr_chain(call.args[0]).split(".")[-1] in ("peername", "sockname"):
-                return "format_address of a socket-level peername/sockname: numeric host and port reported by the OS"
+    def clean_expr(self, node, frame):
+        """``<m>.get("<key>", <const>...)`` / ``<m>["<key>"]`` where <m> is (an alias of) the ``metadata`` dict of a flow: decided by who writes that key."""
+        key = None
+        if isinstance(node, ast.Call) and isinstance(node.func, ast.Attribute) and node.func.attr == "get" and node.args and not node.keywords \
+                and all(isinstance(a, ast.Constant) for a in node.args):
+            key, recv = node.args[0].value, node.func.value
+        elif isinstance(node, ast.Subscript) and isinstance(node.ctx, ast.Load) and isinstance(node.slice, ast.Constant):
+            key, recv = node.slice.value, node.value
+        if not isinstance(key, str) or ".metadata" not in norm(recv) and not isinstance(recv, ast.Name):
             return None
-        # f.metadata.get("<key>", <const>)
-        if isinstance(call.func, ast.Attribute) and call.func.attr == "get" and attr_chain(call.func.value).endswith(".metadata") and call.args:
-            k = call.args[0]
-            if isinstance(k, ast.Constant) and isinstance(k.value, str) and all(isinstance(a, ast.Constant) for a in call.args[1:]):
-                return self.metadata_ok(k.value)
+        t = frame.taint(recv)
+        if t and all(o.text.endswith(".metadata") and not o.via for o in t):
+            return self.metadata_ok(key)
+        return None
+
+    SOCKET_ATTRS = ("peername", "sockname")
+
+    def socket_attr(self, attr):
+        """``.peername`` / ``.sockname``: the numeric (host, port) the OS reports for a socket - as long as the only declarations of that name
+        among the classes reachable from a hook argument are the connection classes' ``Address`` fields."""
+        if attr not in self.SOCKET_ATTRS:
+            return None
+        ds = self.at.decl.get(attr) or []
+        if ds and all(rel == "mitmproxy/connection.py" and ann is not None and "Address" in norm(ann) for rel, q, ann, value in ds):
+            return f".{attr}: socket-level address (numeric host and port reported by the OS), declared only in mitmproxy/connection.py"
         return None
 
     def call_result(self, call, dotted, frame, operands):
@@ -140,7 +297,30 @@ class DumperSpec(TaintSpec):
         base = frame.taint(node.value)
         if base and all(o.text.startswith(RESULT) for o in base):
             return RESULT_CLEAN_FIELDS.get(node.attr)
-        return self.at.nonstr(node.attr)
+        return self.at.nonstr(node.attr) or self.socket_attr(node.attr)
+
+    def out_chains(self, mod) -> set:
+        """The output streams by role: sys.stdout / sys.stderr, and every ``self.<x>`` that the module binds to an expression naming one of them
+        (``self.outfp = outfile or sys.stdout``), is declared as a text stream (``IO[str]`` / ``TextIO``) or is handed to ``print(file=...)``."""
+        got = self._out_chains.get(mod.rel)
+        if got is None:
+            got = set(OUT_CHAINS)
+            for n in ast.walk(mod.tree):
+                tgt = val = ann = None
+                if isinstance(n, ast.Assign) and len(n.targets) == 1:
+                    tgt, val = n.targets[0], n.value
+                elif isinstance(n, ast.AnnAssign):
+                    tgt, val, ann = n.target, n.value, n.annotation
+                elif isinstance(n, ast.Call) and attr_chain(n.func) == "print":
+                    for k in n.keywords:
+                        if k.arg == "file" and attr_chain(k.value).startswith("self."):
+                            got.add(attr_chain(k.value))
+                ch = attr_chain(tgt) if tgt is not None else ""
+                if ch.startswith("self.") and ch.count(".") == 1:
+                    if (val is not None and any(attr_chain(x) in OUT_CHAINS for x in ast.walk(val))) or (ann is not None and any(w in norm(ann) for w in ("IO[", "TextIO"))):
+                        got.add(ch)
+            self._out_chains[mod.rel] = got
+        return got
 
     def on_call(self, call, dotted, frame):
         what = None
@@ -150,11 +330,12 @@ class DumperSpec(TaintSpec):
             operands = list(call.args) + [k.value for k in call.keywords if k.arg in ("sep", "end")]
         elif isinstance(call.func, ast.Attribute) and call.func.attr in ("write", "writelines"):
             recv = attr_chain(call.func.value)
+            chains = self.out_chains(frame.mod)
             aliases = getattr(frame, "_out_aliases", None)
             if aliases is None:
-                aliases = frame._out_aliases = {t.id for s in ast.walk(frame.fn) if isinstance(s, ast.Assign) and attr_chain(s.value) in OUT_CHAINS
+                aliases = frame._out_aliases = {t.id for s in ast.walk(frame.fn) if isinstance(s, ast.Assign) and attr_chain(s.value) in chains
                                                 for t in s.targets if isinstance(t, ast.Name)}
-            if recv in OUT_CHAINS or recv in aliases:
+            if recv in chains or recv in aliases:
                 what = recv + "." + call.func.attr
                 operands = list(call.args)
         if what is None:
@@ -170,16 +351,50 @@ class DumperSpec(TaintSpec):
 # R49.1 driver (shared by the repository run and the positive examples)
 
 
+def _is_nested(d) -> bool:
+    p = getattr(d, "_parent", None)
+    while p is not None:
+        if isinstance(p, (ast.FunctionDef, ast.AsyncFunctionDef, ast.Lambda)):
+            return True
+        p = getattr(p, "_parent", None)
+    return False
+
+
+def _enclosing_class(n):
+    p = getattr(n, "_parent", None)
+    while p is not None and not isinstance(p, ast.ClassDef):
+        p = getattr(p, "_parent", None)
+    return p
+
+
+def callee_qual(q, c: ast.Call):
+    """qualname of the same-module function a call inside function ``q`` names (self.m(...) / cls.m(...) / m(...)), else None."""
+    if isinstance(c.func, ast.Attribute) and isinstance(c.func.value, ast.Name) and c.func.value.id in ("self", "cls") and "." in q:
+        return f"{q.rsplit('.', 1)[0]}.{c.func.attr}"
+    if isinstance(c.func, ast.Name):
+        return c.func.id
+    return None
+
+
+def call_graph(mod) -> dict:
+    out: dict = {}
+    for q, d in mod.defs().items():
+        if isinstance(d, (ast.FunctionDef, ast.AsyncFunctionDef)) and not _is_nested(d):
+            out[q] = {t for c in walk_in_order(d) if isinstance(c, ast.Call) for t in [callee_qual(q, c)] if t is not None and mod.get(t) is not None}
+    return out
+
+
 def run_dumper(model, mod, cls_name, attr_types, hooks, metadata_ok):
     cls = mod.get(cls_name)
     if not isinstance(cls, ast.ClassDef):
         raise AnalysisError(f"anchor class vanished: {mod.rel}::{cls_name}")
-    fns = [(q, d) for q, d in mod.defs().items() if isinstance(d, (ast.FunctionDef, ast.AsyncFunctionDef))]
+    fns = [(q, d) for q, d in mod.defs().items() if isinstance(d, (ast.FunctionDef, ast.AsyncFunctionDef)) and not _is_nested(d)]
     # who is called from inside the module (self.m(...), m(...), or referenced as a value: self.m without a call counts too)
     called = set()
     for n in walk_in_order(mod.tree):
         if isinstance(n, ast.Attribute) and isinstance(n.value, ast.Name) and n.value.id in ("self", "cls"):
-            called.add(f"{qual_of(n).rsplit('.', 1)[0]}.{n.attr}" if "." in qual_of(n) else n.attr)
+            c = _enclosing_class(n)
+            called.add(f"{c._qual}.{n.attr}" if c is not None else n.attr)
         elif isinstance(n, ast.Name) and isinstance(n.ctx, ast.Load) and isinstance(mod.get(n.id), (ast.FunctionDef, ast.AsyncFunctionDef)):
             called.add(n.id)
     entries = set()
@@ -188,7 +403,7 @@ def run_dumper(model, mod, cls_name, attr_types, hooks, metadata_ok):
         if (is_method and d.name in hooks) or q not in called:
             entries.add(q)
     spec = DumperSpec(model, attr_types, entries, metadata_ok)
-    prog = Program(model, spec)
+    prog = NestProgram(model, spec)
     hits = prog.run([(mod, d) for q, d in fns])
     # derived sinks: functions whose summary carries a parameter-rooted hit
     derived = {}
@@ -217,9 +432,7 @@ def run_dumper(model, mod, cls_name, attr_types, hooks, metadata_ok):
 def metadata_writers(model):
     """key -> reason if every ``<x>.metadata["key"] = v`` in mitmproxy/** stores a value that is non-string by declaration."""
     writes: dict[str, list] = {}
-    for mod in model.all_modules():
-        if "metadata[" not in mod.source:
-            continue
+    for mod in modules_where(model, lambda src: "metadata[" in src):
         for n in walk_in_order(mod.tree):
             if isinstance(n, ast.Assign):
                 for t in n.targets:
@@ -246,20 +459,16 @@ def metadata_writers(model):
 
 
 # ---------------------------------------------------------------------------------------------------
-# R49.2: fold the translation tables of strutils
-
-
-CC = set(range(0, 32)) | {127} | set(range(128, 160))
-SPACING = {9, 10, 13}
+# R49.2: the sanitiser, interpreted
 
 
 def check_escape_semantics(ctx):
     """escape_control_characters is *interpreted* (pyint) on representatives of every combination of character classes; whatever the function
     does before / instead of / after ``str.translate`` (fast paths, regex pre-checks, helper functions, loops) is part of what is analysed."""
     fn = ctx.func(SU, "escape_control_characters")
-    params = [a.arg for a in fn.args.args]
-    ctx.require(params[:2] == ["text", "keep_spacing"], "escape_control_characters signature changed")
-    res, tables = interpret_sanitiser(ctx.model, SU, "escape_control_characters")
+    params = [a.arg for a in fn.args.posonlyargs + fn.args.args + fn.args.kwonlyargs]
+    ctx.require(len(params) >= 2, "escape_control_characters no longer takes (text, keep_spacing)")
+    res, tables = interpret_sanitiser(ctx.model, SU, "escape_control_characters", keep_kw=params[1])
     n_in = len(control_character_domain())
     for keep, (leaked, example) in res.items():
         ctx.cells += n_in
@@ -267,54 +476,9 @@ def check_escape_semantics(ctx):
         ex = f"escape_control_characters({example[0][:24]!r}, keep_spacing={keep}) == {example[1][:24]!r}" if example else ""
         ctx.check(not leaked, "R49.2", (SU, "escape_control_characters", fn), f"escape_control_characters(keep_spacing={keep}) lets {ranges} through" if leaked else f"escape_control_characters(keep_spacing={keep})",
                   f"control characters {ranges} pass through escape_control_characters unchanged for some inputs: {ex} (U+009B is CSI, U+009D OSC, U+001B ESC)",
-                  desc=f"escape_control_characters(keep_spacing={keep}), interpreted on {n_in} inputs (every Cc code point alone / embedded, every combination of C0, TAB-LF-CR, DEL, C1): no control character"
-                       f"{' except TAB/LF/CR' if keep else ''} in any output")
+                  desc=f"escape_control_characters(keep_spacing={keep}), interpreted on {n_in} inputs (every Cc code point alone / embedded, every combination of C0, TAB-LF-CR, DEL, C1): no control character "
+                       "other than TAB/LF/CR (which the property allows) in any output")
     return tables
-
-
-def check_escape_table(ctx):
-    m = ctx.model
-    mod = m.module(SU)
-    fn = ctx.func(SU, "escape_control_characters")
-    # shape: trans = A if keep_spacing else B ; return text.translate(trans)
-    rets = [n for n in walk_in_order(fn) if isinstance(n, ast.Return)]
-    ctx.require(len(rets) == 1 and isinstance(rets[0].value, ast.Call) and isinstance(rets[0].value.func, ast.Attribute) and rets[0].value.func.attr == "translate"
-                and len(rets[0].value.args) == 1, "escape_control_characters no longer ends in a single `return <text>.translate(<table>)`")
-    call = rets[0].value
-    params = [a.arg for a in fn.args.args]
-    ctx.require(params[:2] == ["text", "keep_spacing"] and attr_chain(call.func.value) == "text", "escape_control_characters signature / receiver changed")
-    ctx.require(not any(isinstance(n, (ast.Assign, ast.AugAssign)) and any(attr_chain(t) == "text" for t in (n.targets if isinstance(n, ast.Assign) else [n.target]))
-                        for n in walk_in_order(fn)), "escape_control_characters rebinds `text` before translating")
-    targ = call.args[0]
-    if isinstance(targ, ast.Name) and targ.id not in params:
-        defs = [s for s in walk_in_order(fn) if isinstance(s, ast.Assign) and any(isinstance(t, ast.Name) and t.id == targ.id for t in s.targets)]
-        ctx.require(len(defs) == 1, f"escape_control_characters: {targ.id} is not assigned exactly once")
-        targ = defs[0].value
-    if isinstance(targ, ast.IfExp):
-        ctx.require(attr_chain(targ.test) == "keep_spacing" and isinstance(targ.body, ast.Name) and isinstance(targ.orelse, ast.Name),
-                    f"escape_control_characters: table selection not modelled: {norm(targ)}")
-        sel = {True: targ.body.id, False: targ.orelse.id}
-    elif isinstance(targ, ast.Name):
-        sel = {True: targ.id, False: targ.id}
-    else:
-        raise AnalysisError(f"escape_control_characters: table expression not modelled: {norm(targ)}")
-    tables = fold_tables(mod.tree.body, set(sel.values()), SU)
-    for keep, name in sel.items():
-        ctx.require(name in tables, f"strutils: table {name} is not built at module level")
-        t = tables[name]
-        need = CC - SPACING if keep else CC
-        ctx.cells += len(need)
-        missing = sorted(need - set(t))
-        ranges = _ranges(missing)
-        ctx.check(not missing, "R49.2", (SU, "escape_control_characters", fn), f"{name} (keep_spacing={keep}) lacks {ranges}" if missing else f"{name} covers Cc",
-                  f"control characters {ranges} pass through escape_control_characters unchanged (U+009B is CSI, U+009D OSC, U+001B ESC)",
-                  desc=f"{name} (keep_spacing={keep}): {len(t)} entries cover all {len(need)} required Cc code points")
-        badv = sorted(k for k, v in t.items() if not isinstance(v, int) or v in CC)
-        ctx.check(not badv, "R49.2", (SU, "escape_control_characters", fn), f"{name} maps to a control character", f"entries {badv[:5]} translate to a control character",
-                  desc=f"{name}: every entry maps to a non-control character")
-        if keep:
-            kept = sorted(SPACING - set(t))
-            ctx.note(f"R49.2: keep_spacing=True leaves {kept} (TAB/LF/CR) untouched, as the property allows")
 
 
 def _ranges(xs):
@@ -331,49 +495,242 @@ def _ranges(xs):
 # ---------------------------------------------------------------------------------------------------
 
 
+class _ResultSpec(TaintSpec):
+    """R49.3: every parameter of the analysed function is a source; the only sanitiser is escape_control_characters; the abstract value of a
+    ``ContentviewResult`` object is the taint of its ``text`` field (``_ResultFrame``)."""
+
+    name = "R49.3"
+    sanitisers = {ESC: "escape_control_characters (R49.2)"}
+
+    def __init__(self, model, root, result_cls):
+        self.model, self.root, self.result_cls = model, root, result_cls
+        self.fields = [st.target.id for st in result_cls.body if isinstance(st, ast.AnnAssign) and isinstance(st.target, ast.Name)]
+        self.returns: list = []  # (Return stmt, taint of the returned object's text)
+
+    def is_entry(self, fn, an) -> bool:
+        return fn is self.root
+
+    def param_kind(self, fn, arg, an):
+        if arg.arg in ("self", "cls"):
+            return None
+        return "src" if fn is self.root else "param"  # (also int-annotated ones: nothing is assumed about the callers of prettify_message)
+
+    def constructs_result(self, call, frame) -> bool:
+        r = self.model.resolve_name(frame.mod, call.func) if isinstance(call.func, (ast.Name, ast.Attribute)) else None
+        return r is not None and r[1] is self.result_cls
+
+    def text_operand(self, call):
+        for k in call.keywords:
+            if k.arg == "text":
+                return k.value
+        i = self.fields.index("text")
+        if len(call.args) > i and not any(isinstance(a, ast.Starred) for a in call.args[: i + 1]):
+            return call.args[i]
+        return None
+
+    def call_result(self, call, dotted, frame, operands):
+        if self.constructs_result(call, frame):
+            t = self.text_operand(call)
+            if t is None:
+                raise AnalysisError(f"{frame.mod.rel}::{frame.qual}: {norm(call)[:60]} does not name its text operand (shape not modelled)")
+            return frame.taint(t)
+        if dotted in ("dataclasses.replace", "copy.replace") and call.args and frame.is_result(call.args[0]):
+            for k in call.keywords:
+                if k.arg == "text":
+                    return frame.taint(k.value)
+            return frame.taint(call.args[0])
+        return None
+
+    def on_return(self, stmt, taint, frame):
+        if frame.fn is self.root:
+            self.returns.append((stmt, taint))
+
+
+class _ResultFrame(NestFrame):
+    """Frame with one level of field sensitivity for result objects: the taint of a local that holds a ContentviewResult is the taint of its
+    ``text`` field; ``x.text = v`` is a strong update; the other fields are kept aside (flow-insensitively) and never leak into ``text``."""
+
+    def __init__(self, prog, mod, fn, env=None):
+        super().__init__(prog, mod, fn, env)
+        spec = self.spec
+        cname = spec.result_cls.name
+        names = set()
+        a = fn.args
+        for x in a.posonlyargs + a.args + a.kwonlyargs:
+            if x.annotation is not None and cname in {n.id if isinstance(n, ast.Name) else getattr(n, "attr", None) for n in ast.walk(x.annotation)} | (
+                    {x.annotation.value} if isinstance(x.annotation, ast.Constant) else set()):
+                names.add(x.arg)
+        grew = True
+        while grew:
+            grew = False
+            for n in ast.walk(fn):
+                tgt, val, ann = None, None, None
+                if isinstance(n, ast.Assign) and len(n.targets) == 1:
+                    tgt, val = n.targets[0], n.value
+                elif isinstance(n, ast.AnnAssign):
+                    tgt, val, ann = n.target, n.value, n.annotation
+                elif isinstance(n, ast.NamedExpr):
+                    tgt, val = n.target, n.value
+                if not isinstance(tgt, ast.Name) or tgt.id in names:
+                    continue
+                if (ann is not None and last_attr(ann) == cname) or self._yields_result(val, names):
+                    names.add(tgt.id)
+                    grew = True
+        self.result_vars = names
+        self.rest: dict = {}
+
+    def _yields_result(self, val, names) -> bool:
+        if isinstance(val, ast.Name):
+            return val.id in names
+        if isinstance(val, ast.IfExp):
+            return self._yields_result(val.body, names) or self._yields_result(val.orelse, names)
+        if isinstance(val, ast.Call):
+            if self.spec.constructs_result(val, self):
+                return True
+            if last_attr(val.func) == "replace" and val.args and isinstance(val.args[0], ast.Name) and val.args[0].id in names:
+                return True
+            tgt = self.prog.resolve(self.mod, val, self)
+            if tgt is not None and tgt[1].returns is not None and last_attr(tgt[1].returns) == self.spec.result_cls.name:
+                return True
+        return False
+
+    def is_result(self, e) -> bool:
+        return isinstance(e, ast.Name) and e.id in self.result_vars
+
+    def bind(self, target, v, value_node):
+        if isinstance(target, ast.Attribute) and self.is_result(target.value):
+            name = target.value.id
+            if target.attr == "text":
+                self.env[name] = v  # strong update of the one field the rule is about
+            else:
+                self.rest[name] = self.rest.get(name, frozenset()) | v
+            return
+        if isinstance(target, ast.Name) and target.id in self.result_vars and isinstance(value_node, ast.Call) and self.spec.constructs_result(value_node, self):
+            others = [x for x in list(value_node.args) + [k.value for k in value_node.keywords] if x is not self.spec.text_operand(value_node)]
+            self.rest[target.id] = self.rest.get(target.id, frozenset()).union(*[self.taint(x) for x in others])
+        elif isinstance(target, ast.Name) and self.is_result(value_node):
+            self.rest[target.id] = self.rest.get(target.id, frozenset()) | self.rest.get(value_node.id, frozenset())
+        super().bind(target, v, value_node)
+
+    # -- in-place helpers: ``def _sanitize(result): result.text = escape(result.text)`` -> the text of the caller's object after the call
+    def run(self):
+        a = self.fn.args
+        rebound = {n.id for n in ast.walk(self.fn) if isinstance(n, ast.Name) and isinstance(n.ctx, (ast.Store, ast.Del))}
+        self.out_params = [x.arg for x in a.posonlyargs + a.args + a.kwonlyargs if x.arg in self.result_vars and x.arg not in rebound]
+        self.text_out: dict = {}
+        s = super().run()
+        s.text_out = self.text_out
+        return s
+
+    def _exit(self):
+        for p_ in self.out_params:
+            self.text_out[p_] = self.text_out.get(p_, frozenset()) | self.env.get(p_, frozenset())
+
+    def block(self, stmts) -> bool:
+        ok = super().block(stmts)
+        if ok and stmts is self.fn.body:
+            self._exit()  # falls off the end
+        return ok
+
+    def stmt(self, st) -> bool:
+        r = super().stmt(st)
+        if isinstance(st, ast.Return):
+            self._exit()
+        return r
+
+    def call(self, c, probe):
+        t = super().call(c, probe)
+        target = self.prog.resolve(self.mod, c, self) if not (isinstance(c.func, ast.Name) and c.func.id in self.nested) else None
+        if target is not None:
+            sm = self.prog.summary(*target)
+            outs = getattr(sm, "text_out", None)
+            if outs:
+                args = [self.expr(x, True) for x in c.args]
+                kws = {(k.arg or "**"): self.expr(k.value, True) for k in c.keywords}
+                bound = self.bind_args(sm, target[1], c, args, kws, is_method=isinstance(c.func, ast.Attribute))
+                params = [x for x in sm.params if x not in ("self", "cls")] if isinstance(c.func, ast.Attribute) or (sm.params and sm.params[0] in ("self", "cls")) else list(sm.params)
+                actual = {params[i]: x for i, x in enumerate(c.args) if i < len(params) and not isinstance(x, ast.Starred)}
+                actual.update({k.arg: k.value for k in c.keywords if k.arg})
+                for p_, out in outs.items():
+                    x = actual.get(p_)
+                    if self.is_result(x):
+                        new = set()
+                        for o in out:
+                            if o.kind == "src":
+                                new.add(o)
+                            else:
+                                new |= bound.get(o.root, frozenset())
+                        self.env[x.id] = frozenset(new)
+        return t
+
+    def _expr(self, e, probe):
+        if isinstance(e, ast.Attribute) and self.is_result(e.value):
+            text = self.env.get(e.value.id, frozenset())
+            return text if e.attr == "text" else text | self.rest.get(e.value.id, frozenset())
+        return super()._expr(e, probe)
+
+
+class _ResultProgram(NestProgram):
+    frame_cls = _ResultFrame
+
+
 def check_prettify(ctx):
+    """R49.3 by dataflow: on every path, the ``text`` of the object ``prettify_message`` returns is a constant or passed
+    escape_control_characters after its last write.  Statements that do not write the text (asserts, logging, other fields) are transparent;
+    helpers of the same module are followed through their summaries."""
     fn = ctx.func(CV, "prettify_message")
     mod = ctx.model.module(CV)
-    n_ret = 0
-    for r in [n for n in walk_in_order(fn) if isinstance(n, ast.Return)]:
-        n_ret += 1
-        v = r.value
-        if isinstance(v, ast.Call) and last_attr(v.func) == "ContentviewResult":
-            text = next((k.value for k in v.keywords if k.arg == "text"), None)
-            ctx.check(isinstance(text, ast.Constant), "R49.3", (CV, "prettify_message", r), f"return ContentviewResult(text={norm(text) if text is not None else '?'})",
-                      "a result whose text is not a constant is returned without escape_control_characters", desc="early return with constant text")
-        elif isinstance(v, ast.Name):
-            body = r._parent.body if hasattr(r._parent, "body") and r in r._parent.body else None
-            ctx.require(body is not None, "prettify_message: return statement in an unmodelled position")
-            prev = body[body.index(r) - 1] if body.index(r) > 0 else None
-            ok = (isinstance(prev, ast.Assign) and len(prev.targets) == 1 and attr_chain(prev.targets[0]) == f"{v.id}.text" and isinstance(prev.value, ast.Call)
-                  and Program(ctx.model, TaintSpec()).dotted(mod, prev.value.func) == ESC and len(prev.value.args) == 1 and attr_chain(prev.value.args[0]) == f"{v.id}.text"
-                  and not prev.value.keywords)
-            ctx.check(ok, "R49.3", (CV, "prettify_message", r), f"return {v.id} after {v.id}.text = escape_control_characters({v.id}.text)",
-                      "the prettified text is returned without passing escape_control_characters", desc=f"return {v.id}: text escaped immediately before")
-        else:
-            raise AnalysisError(f"prettify_message: return shape not modelled: {norm(r)}")
-    ctx.require(n_ret >= 2, "prettify_message: fewer than 2 return statements")
-    ctx.expect_instances("R49.3", 2)
+    res = ctx.model.resolve_name(mod, fn.returns) if fn.returns is not None and not isinstance(fn.returns, ast.Constant) else None
+    if res is None or not isinstance(res[1], ast.ClassDef):
+        res = (mod, mod.get("ContentviewResult"))
+    ctx.require(isinstance(res[1], ast.ClassDef), "prettify_message: the class of its result (return annotation / ContentviewResult) is not a repository class")
+    spec = _ResultSpec(ctx.model, fn, res[1])
+    ctx.require("text" in spec.fields, f"{res[1].name} has no annotated `text` field any more")
+    prog = _ResultProgram(ctx.model, spec)
+    prog.run([(mod, fn)])
+    for rel, q in prog.analysed:
+        ctx.functions.add(f"{rel}::{q}")
+    ctx.require(spec.returns, "prettify_message: no return statement with a value")
+    seen, dirty = set(), False
+    for r, t in spec.returns:
+        if id(r) in seen:
+            continue
+        seen.add(id(r))
+        t = frozenset().union(*[tt for rr, tt in spec.returns if rr is r])
+        real = sorted({o.text for o in t if o.kind == "src"})
+        what = f"return {norm(r.value)[:50]}" if not isinstance(r.value, ast.Call) else f"return {norm(r.value.func)}(...)"
+        dirty = dirty or bool(real)
+        ctx.check(not real, "R49.3", (CV, "prettify_message", r), f"{what}: text not escaped" if real else what,
+                  f"the text of the returned result still carries {', '.join(real[:4])} without having passed escape_control_characters on some path",
+                  desc=f"{what}: text is constant or escaped on every path")
+    esc = [d for d, why in prog.discharged() if why == _ResultSpec.sanitisers[ESC]]
+    ctx.require(esc or dirty, "prettify_message: no data derived from its parameters passes escape_control_characters any more (rule would hold vacuously)")
+    ctx.note(f"R49.3 escaped on the way to the result: {esc}")
+    ctx.expect_instances("R49.3", 1)
 
 
 def check(ctx):
     m = ctx.model
     ctx.rule("R49.1", "every hook-argument-derived string reaching print()/outfp.write() (directly, through echo, or through any helper) passed a sanitiser "
              "of the table or is non-string by declaration (else a peer can inject terminal control sequences)")
-    ctx.rule("R49.2", "escape_control_characters' translation tables cover every Cc code point (except TAB/LF/CR with keep_spacing) and map to non-control characters")
-    ctx.rule("R49.3", "prettify_message returns its text through escape_control_characters on every path")
+    ctx.rule("R49.2", "escape_control_characters (interpreted) lets no Cc code point through, except TAB/LF/CR, for any combination of character classes, keep_spacing on and off")
+    ctx.rule("R49.3", "the text of the result prettify_message returns is a constant or passed escape_control_characters after its last write, on every path")
     ctx.assume("a callee outside dumper.py returns data derived from its operands only (strutils.cut_after_n_lines, mitmproxy_rs.syntax_highlight.highlight, "
                "miniclick.style, flow.Error, dns.*.to_str)")
-    ctx.assume("ctx.options, module-level constants and socket-level peername/sockname are not peer-controlled text")
+    ctx.assume("ctx.options, module-level constants and socket-level peername/sockname (Connection fields of type Address) are not peer-controlled text")
     ctx.trust("CPython repr(bytes) escapes every byte outside printable ASCII (bytes_to_escaped_str)")
     ctx.trust("wsproto.frame_protocol.Opcode / CloseReason are Enums")
 
     mod = m.module(F)
     ctx.cls = m.cls(F, "Dumper")
+    thorough = ctx.tier == "thorough"
     # nobody outside dumper.py calls into a Dumper (its public helpers are summarised from their in-module call sites only)
-    for other in m.all_modules():
-        if other.rel == F or "Dumper" not in other.source:
+    users = modules_where(m, lambda src: "Dumper" in src)
+    if thorough:
+        full = [o.rel for o in m.all_modules() if "Dumper" in o.source]
+        ctx.require(full == [o.rel for o in users], "lazy module selection disagrees with the whole-package scan (users of Dumper)")
+    for other in users:
+        if other.rel == F:
             continue
         for n in walk_in_order(other.tree):
             if (isinstance(n, ast.Name) and n.id == "Dumper") or (isinstance(n, ast.Attribute) and n.attr == "Dumper"):
@@ -383,6 +740,9 @@ def check(ctx):
                 ctx.require(isinstance(p, ast.Call) and p.func is n and isinstance(p._parent, ast.Call) and p in p._parent.args,
                             f"{other.rel}::{qual_of(n)}: Dumper is used other than as `<register>(Dumper())` - external callers of its helpers are not modelled")
     hooks = hook_names(m)
+    if thorough:
+        ctx.require({k: v[1].name for k, v in hook_names(m, full=True).items()} == {k: v[1].name for k, v in hooks.items()},
+                    "lazy module selection disagrees with the whole-package scan (hook classes)")
     ctx.require(len(hooks) >= 40 and {"response", "websocket_message", "tcp_message", "dns_response"} <= set(hooks), f"hook name derivation broke ({len(hooks)} names)")
     # static shape of what hangs off a hook argument: classes reachable from the field types of the hooks Dumper implements
     seeds = []
@@ -392,7 +752,11 @@ def check(ctx):
             for fld in hc.body:
                 if isinstance(fld, ast.AnnAssign):
                     seeds += annotation_classes(m, hm, fld.annotation)
-    closure = class_closure(m, seeds)
+    closure = class_closure_lazy(m, seeds)
+    if thorough:
+        ctx.require({(cm.rel, c._qual) for cm, c in class_closure(m, seeds)} == {(cm.rel, c._qual) for cm, c in closure},
+                    "lazy class closure disagrees with the whole-package class closure")
+    closure.sort(key=lambda mc: (mc[0].rel, mc[1].lineno))
     names = {c.name for _, c in closure}
     ctx.require({"HTTPFlow", "TCPFlow", "UDPFlow", "DNSFlow", "Request", "Response", "WebSocketData", "WebSocketMessage", "Error", "Server", "Client", "Question",
                  "ResourceRecord", "DNSMessage", "TCPMessage"} <= names, f"flow object-graph closure broke: {sorted(names)[:40]}")
@@ -402,11 +766,28 @@ def check(ctx):
     spec, prog, hits, entries, derived, sites = run_dumper(m, mod, "Dumper", at, hooks, md_ok)
     for rel, q in prog.analysed:
         ctx.functions.add(f"{rel}::{q}")
-    ctx.require("Dumper.echo" in derived and "text" in derived["Dumper.echo"], "Dumper.echo no longer passes its text to print(..., file=self.outfp) (sink anchor changed)")
-    ctx.require(any(v[3] == "print" and v[1] == "Dumper.echo" for v in spec.sites.values()), "print() in Dumper.echo vanished")
+    # anchors by role: a method of Dumper writes to the output stream (base sink), and some method is a derived sink through one of its parameters
+    base_in_dumper = sorted({v[1] for v in spec.sites.values() if v[1].startswith("Dumper.")})
+    ctx.require(base_in_dumper, "no method of Dumper prints / writes to the output stream any more (sink anchor changed)")
+    ctx.require(any(q.startswith("Dumper.") for q in derived), "no method of Dumper passes a parameter on to the output stream any more (sink anchor changed)")
     want_entries = {"Dumper.response", "Dumper.error", "Dumper.http_connect_error", "Dumper.websocket_message", "Dumper.websocket_end", "Dumper.tcp_error",
                     "Dumper.udp_error", "Dumper.tcp_message", "Dumper.udp_message", "Dumper.dns_response", "Dumper.dns_error"}
     ctx.require(want_entries <= entries, f"hook methods of Dumper not recognised as entries: {sorted(want_entries - entries)}")
+    # non-vacuity by role instead of a count of call sites (which changes with every extracted helper): every hook that prints reaches a
+    # checked sink site through the module's call graph, and data derived from hook arguments is discharged by both escaping sanitisers.
+    graph = call_graph(mod)
+    site_quals = {v[1] for v in sites.values()}
+    for e in sorted(want_entries):
+        reach, todo = set(), [e]
+        while todo:
+            q = todo.pop()
+            if q not in reach:
+                reach.add(q)
+                todo.extend(graph.get(q, ()))
+        ctx.require(reach & site_quals, f"{e}: no checked sink site is reachable from this hook any more (anchor moved)")
+    reasons = {why for _, why in prog.discharged()}
+    for san in (ESC, "mitmproxy.utils.strutils.bytes_to_escaped_str"):
+        ctx.require(DumperSpec.sanitisers[san] in reasons, f"nothing derived from a hook argument passes {san.rsplit('.', 1)[1]} in dumper.py any more (rule would hold vacuously)")
     ctx.note(f"R49.1 entries (parameters are sources): {sorted(entries)}")
     ctx.note("R49.1 derived sinks (parameter -> terminal): " + "; ".join(f"{q}({', '.join(ps)})" for q, ps in sorted(derived.items())))
     by_site: dict[int, list] = {}
@@ -428,7 +809,7 @@ def check(ctx):
             ctx.ok("R49.1", f"{q}: {norm(call)[:90]}")
     for d, why in prog.discharged():
         ctx.note(f"R49.1 discharged {d}: {why}")
-    ctx.expect_instances("R49.1", 18)
+    ctx.expect_instances("R49.1", 3)
 
     # positive examples
     pos = load_positive("R49_1.py")
@@ -442,10 +823,6 @@ def check(ctx):
     ctx.note(f"R49.1 positive examples: {len(want)} unescaped sink operands reported, {len(clean)} escaped / symbolic sites silent")
 
     check_escape_semantics(ctx)
-    try:
-        check_escape_table(ctx)
-    except AnalysisError as e:
-        ctx.note(f"R49.2 structural reading of the translation tables not available ({e}); the interpreted sanitiser above is the decision")
     ctx.expect_instances("R49.2", 2)
     check_prettify(ctx)
 
